@@ -86,6 +86,8 @@ func c13Job(t *testing.T, raw json.RawMessage) (any, error) {
 		{"rs512-other-key", "Bearer " + mkToken(jwt.SigningMethodRS512, otherKey, scopeAll)},
 		{"rs512-nrf-key-truncated-signature", "Bearer " + strings.TrimRight(mkToken(jwt.SigningMethodRS512, nrfKey, scopeAll), "=")[:300]},
 		{"basic", "Basic dXNlcjpwYXNz"},
+		{"twice/garbage", "garbage"},
+		{"twice/rs512-other-key", "Bearer " + mkToken(jwt.SigningMethodRS512, otherKey, scopeAll)},
 	}
 	control := "Bearer " + mkToken(jwt.SigningMethodRS512, nrfKey, scopeAll)
 	// tokens tried right after the genuine one: its signature under another header and other claims, its first two
@@ -136,6 +138,9 @@ func c13Job(t *testing.T, raw json.RawMessage) (any, error) {
 						hdr := map[string]string{}
 						if tk.hdr != "" {
 							hdr["Authorization"] = tk.hdr
+						}
+						if strings.HasPrefix(tk.name, "twice/") {
+							hdr["Authorization#2"] = tk.hdr // the header field sent twice
 						}
 						r := w.Do(rt.Method, path, string(bodyJSON), hdr)
 						vs.Quiesce()
@@ -265,7 +270,7 @@ func init() {
 		rep.Cov["traces_validated_against_impl"] = probes + control + sexecs
 		rep.Cov["evaluations"] = probes
 		rep.Cov["distinct_nontrivial"] = probes / 2
-		rep.Cov["rule"] = "every ordered list of distinct service names (16 incl. the empty list) x every (method, path) reported by gin's Engine.Routes() x 11 token kinds x 2 attempts (and 5 more right after a request with a genuine token: its signature under other claims, its claims under another signature, ...), against a world with a live session, a reservation and a notification URI; plus one control probe per route with a valid NRF-signed RS512 token; plus (concurrent_requests) every placement of up to k preemptions at statement-level scheduling points inside the authorisation code while a request with a valid token and one without are in flight on the recharging route"
+		rep.Cov["rule"] = "every ordered list of distinct service names (16 incl. the empty list) x every (method, path) reported by gin's Engine.Routes() x 13 token kinds (two of them with the Authorization field sent twice) x 2 attempts (and 5 more right after a request with a genuine token: its signature under other claims, its claims under another signature, ...), against a world with a live session, a reservation and a notification URI; plus one control probe per route with a valid NRF-signed RS512 token; plus (concurrent_requests) every placement of up to k preemptions at statement-level scheduling points inside the authorisation code while a request with a valid token and one without are in flight on the recharging route"
 		rep.Cov["service_lists"] = len(lists)
 		rep.Cov["routes_probed"] = routes
 		rep.Cov["control_probes"] = control
